@@ -1,4 +1,11 @@
 import Bptk.Core.C11
+import Mathlib.Algebra.Order.Floor.Ring
+import Mathlib.Data.Rat.Floor
+import Mathlib.Tactic.Linarith
+import Mathlib.Tactic.Ring
+import Mathlib.Tactic.Positivity
+import Mathlib.Tactic.FieldSimp
+import Mathlib.Tactic.NormNum
 /-!
 C11 — property theorems.  Quantifier: every operation history (`List Op`), unbounded: any population
 history (create / delete / configure / reset), any send script (receiver alive, deleted or never created;
@@ -662,8 +669,8 @@ def requeuePinned (evs : List Ev) : List Ev := (evs.reverse.filter isDelayed).ma
 /-- kernel-checked witness of the repaired order defect: one re-queue swaps two events sent in this order (odd
 number of re-queues ⇒ handled in swapped order), two re-queues restore it. -/
 theorem C11_witness_requeue_reversal :
-    (requeuePinned [⟨⟨0, 0, 0, 1⟩, 1⟩, ⟨⟨1, 0, 0, 1⟩, 1⟩]).map (·.msg.seq) = [1, 0] ∧
-    (requeuePinned (requeuePinned [⟨⟨0, 0, 0, 2⟩, 2⟩, ⟨⟨1, 0, 0, 2⟩, 2⟩])).map (·.msg.seq) = [0, 1] := by decide
+    (requeuePinned [⟨⟨0, 0, 0, 1, 0, false⟩, 1⟩, ⟨⟨1, 0, 0, 1, 0, false⟩, 1⟩]).map (·.msg.seq) = [1, 0] ∧
+    (requeuePinned (requeuePinned [⟨⟨0, 0, 0, 2, 0, false⟩, 2⟩, ⟨⟨1, 0, 0, 2, 0, false⟩, 2⟩])).map (·.msg.seq) = [0, 1] := by decide
 
 /-! ### Non-vacuity: a history with deletion, an absent receiver, delayed events and a broadcast -/
 
@@ -676,6 +683,1165 @@ example : demo.dropped.map (fun d => (d.step, d.msg.seq, d.live)) = [(1, 2, [0, 
 example : (run State.init [.create 0, .send 0 2, .send 0 0, .send 0 2, .step, .step, .step]).log.map
     (fun h => (h.step, h.agent, h.msg.seq)) = [(1, 0, 1), (3, 0, 0), (3, 0, 2)] := by decide
 example : stepsOf 1 4 1 10 = 3 ∧ stepsOf 0 1 1 10 = 0 ∧ stepsOf 7 10 1 20 = 14 := by decide
+
+/-! ## Wave 2a — population changes and sends during a step
+
+`midStep P fuel s` runs the step with user code `P` interleaved (C12's iteration semantics of
+`for agent in model.agents`); `midStep_linear` proves that, whenever the loop ends, the result is the atomic
+step followed by the very same effects as operations. Hence every clause of `C11_full` holds for histories with
+mid-step creation / deletion / reconfiguration / reset / sends / broadcasts (`C11_midstep`): the `live` ids of a
+log record are the ids at the START of the step (when `agents_by_id` is built), an agent deleted during the step
+still handles what was distributed to it, an agent created during the step has an empty inbox. -/
+
+/-- the statement of `C11_full` about one state -/
+def Clauses (s : State) : Prop :=
+    (∀ h ∈ s.log, h.msg ∈ s.sent ∧ h.agent = h.msg.rid ∧ h.agent ∈ h.live) ∧
+    (∀ d ∈ s.dropped, d.msg ∈ s.sent ∧ d.msg.rid ∉ d.live) ∧
+    ((∀ h ∈ s.log, h.step = dueStep h.msg) ∧ (∀ d ∈ s.dropped, d.step = dueStep d.msg)) ∧
+    (∀ m ∈ s.sent, (s.log.map (·.msg)).count m + (s.dropped.map (·.msg)).count m
+        = if dueStep m ≤ s.now then 1 else 0) ∧
+    s.log.Pairwise (fun a b => a.step ≤ b.step ∧ (a.step = b.step → a.agent = b.agent → a.msg.seq < b.msg.seq)) ∧
+    (s.sent.length = s.nextSeq ∧ ∀ m ∈ s.sent, s.sent[m.seq]? = some m)
+
+theorem C11_full_iff_clauses : C11_full ↔ ∀ ops : List Op, Clauses (run State.init ops) := Iff.rfl
+
+/-- user code leaves what the step already did alone: it neither reads `model.events` nor the log -/
+def frame (X : List Ev) (L : List Handled) (s : State) : State :=
+  { s with events := X ++ s.events, log := s.log ++ L }
+
+theorem frame_create (X L) (s : State) (ty : Nat) : create (frame X L s) ty = frame X L (create s ty) := rfl
+
+theorem frame_createN (X L) (ty : Nat) (n : Nat) : ∀ s, createN (frame X L s) ty n = frame X L (createN s ty n) := by
+  induction n with
+  | zero => intro s; rfl
+  | succ n ih => intro s; simp only [createN]; rw [frame_create, ih]
+
+theorem frame_createSpec (X L) (spec : List (Nat × Nat)) :
+    ∀ s, createSpec (frame X L s) spec = frame X L (createSpec s spec) := by
+  induction spec with
+  | nil => intro s; rfl
+  | cons p rest ih => intro s; obtain ⟨ty, n⟩ := p; simp only [createSpec]; rw [frame_createN, ih]
+
+theorem frame_send (X L) (s : State) (rid delay : Nat) : send (frame X L s) rid delay = frame X L (send s rid delay) := by
+  simp [send, frame, List.append_assoc]
+
+theorem frame_sendAll (X L) (delay : Nat) (ids : List Nat) :
+    ∀ s, sendAll (frame X L s) delay ids = frame X L (sendAll s delay ids) := by
+  induction ids with
+  | nil => intro s; rfl
+  | cons i rest ih => intro s; simp only [sendAll]; rw [frame_send, ih]
+
+theorem frame_eff (X L) (s : State) (e : Eff) : step (frame X L s) e.toOp = frame X L (step s e.toOp) := by
+  cases e with
+  | create ty => rfl
+  | delete ids => rfl
+  | configure spec => exact frame_createSpec X L spec (clear s)
+  | reset => rfl
+  | send r d => exact frame_send X L s r d
+  | broadcast t d => exact frame_sendAll X L d _ s
+
+theorem frame_run (X L) (E : List Eff) : ∀ s, run (frame X L s) (E.map Eff.toOp) = frame X L (run s (E.map Eff.toOp)) := by
+  induction E with
+  | nil => intro s; rfl
+  | cons e rest ih =>
+    intro s
+    simp only [List.map_cons, run, List.foldl_cons] at ih ⊢
+    rw [frame_eff, ih]
+
+theorem addLog_eq_frame (s : State) (L : List Handled) : addLog s L = frame [] L s := by
+  simp [addLog, frame]
+
+theorem run_append (s : State) (a b : List Op) : run s (a ++ b) = run (run s a) b := by
+  simp [run, List.foldl_append]
+
+/-- loop invariant: the model state is the state after distribution (`st0`) with the effects executed so far
+applied as operations, plus the handler invocations logged so far -/
+def Good (st0 : State) (l : Loop) (Ld : List Handled) : Prop :=
+  l.st = addLog (run st0 (l.done.map Eff.toOp)) Ld
+
+def pend (now : Nat) (live : List Nat) (T : List Agent) : List Handled := T.flatMap (handleAgent now live)
+
+theorem effStep_st (l : Loop) (e : Eff) : (effStep l e).st = step l.st e.toOp := by cases e <;> rfl
+theorem effStep_done (l : Loop) (e : Eff) : (effStep l e).done = l.done ++ [e] := by cases e <;> rfl
+
+theorem effStep_pend (now : Nat) (live : List Nat) (l : Loop) (e : Eff) :
+    pend now live (effStep l e).todo = pend now live l.todo := by
+  cases e with
+  | create ty =>
+    simp only [effStep]
+    split
+    · simp [pend, handleAgent]
+    · rfl
+  | delete ids => rfl
+  | configure spec => rfl
+  | reset => rfl
+  | send r d => rfl
+  | broadcast t d => rfl
+
+theorem good_eff {st0 : State} {l : Loop} {Ld : List Handled} (e : Eff) (h : Good st0 l Ld) :
+    Good st0 (effStep l e) Ld := by
+  unfold Good at *
+  rw [effStep_st, effStep_done, h, addLog_eq_frame, frame_eff, List.map_append, run_append]
+  rfl
+
+theorem effs_spec (now : Nat) (live : List Nat) {st0 : State} (E : List Eff) :
+    ∀ (l : Loop) (Ld : List Handled), Good st0 l Ld →
+      Good st0 (E.foldl effStep l) Ld ∧ pend now live (E.foldl effStep l).todo = pend now live l.todo := by
+  induction E with
+  | nil => intro l Ld h; exact ⟨h, rfl⟩
+  | cons e rest ih =>
+    intro l Ld h
+    obtain ⟨a, b⟩ := ih (effStep l e) Ld (good_eff e h)
+    exact ⟨a, by rw [List.foldl_cons, b, effStep_pend]⟩
+
+theorem handleOne_spec (P : Prog) (now : Nat) (live : List Nat) (aid : Nat) {st0 : State} (l : Loop) (Ld : List Handled)
+    (e : Ev) (h : Good st0 l Ld) :
+    Good st0 (handleOne P now live aid l e) (Ld ++ [{ step := now, agent := aid, msg := e.msg, live := live }]) ∧
+    pend now live (handleOne P now live aid l e).todo = pend now live l.todo := by
+  unfold handleOne
+  apply effs_spec now live
+  unfold Good at *
+  simp only
+  rw [h]
+  simp [addLog]
+
+theorem inbox_spec (P : Prog) (now : Nat) (live : List Nat) (aid : Nat) {st0 : State} (evs : List Ev) :
+    ∀ (l : Loop) (Ld : List Handled), Good st0 l Ld →
+      Good st0 (evs.foldl (handleOne P now live aid) l)
+        (Ld ++ evs.map (fun e => { step := now, agent := aid, msg := e.msg, live := live })) ∧
+      pend now live (evs.foldl (handleOne P now live aid) l).todo = pend now live l.todo := by
+  induction evs with
+  | nil => intro l Ld h; simpa using h
+  | cons e rest ih =>
+    intro l Ld h
+    obtain ⟨a, b⟩ := handleOne_spec P now live aid l Ld e h
+    obtain ⟨c, d⟩ := ih _ _ a
+    refine ⟨?_, by rw [List.foldl_cons, d, b]⟩
+    simpa [List.append_assoc] using c
+
+theorem agentTurn_spec (P : Prog) (now : Nat) (live : List Nat) {st0 : State} (l : Loop) (Ld : List Handled) (a : Agent)
+    (h : Good st0 l Ld) :
+    Good st0 (agentTurn P now live l a) (Ld ++ handleAgent now live a) ∧
+    pend now live (agentTurn P now live l a).todo = pend now live l.todo := by
+  unfold agentTurn
+  obtain ⟨c, d⟩ := inbox_spec P now live a.id a.inbox.reverse l Ld h
+  obtain ⟨c', d'⟩ := effs_spec now live (P.onAct now a.id) _ _ c
+  exact ⟨c', by rw [d', d]⟩
+
+theorem midLoop_spec (P : Prog) (now : Nat) (live : List Nat) {st0 : State} (f : Nat) :
+    ∀ (l : Loop) (Ld : List Handled), Good st0 l Ld → (midLoop P now live f l).2 = false →
+      Good st0 (midLoop P now live f l).1 (Ld ++ pend now live l.todo) := by
+  induction f with
+  | zero =>
+    intro l Ld h hs
+    simp only [midLoop, Bool.not_eq_false', List.isEmpty_iff] at hs ⊢
+    simpa [hs, pend] using h
+  | succ f ih =>
+    intro l Ld h hs
+    unfold midLoop at hs ⊢
+    cases htodo : l.todo with
+    | nil => simp only [htodo] at hs ⊢; simpa [pend] using h
+    | cons a rest =>
+      simp only [htodo] at hs ⊢
+      have hg : Good st0 { l with todo := rest } Ld := h
+      obtain ⟨c, d⟩ := agentTurn_spec P now live { l with todo := rest } Ld a hg
+      have := ih _ _ c hs
+      rw [d] at this
+      simpa [pend, List.append_assoc] using this
+
+/-- **Linearisation.** If the agent loop of the step ends, the step with user code interleaved equals the atomic
+step followed by the executed effects as operations, in execution order. -/
+theorem midStep_linear (P : Prog) (fuel : Nat) (s : State) (h : (midStep P fuel s).stuck = false) :
+    (midStep P fuel s).st = run (stepFn s) ((midStep P fuel s).done.map Eff.toOp) := by
+  unfold midStep at h ⊢
+  simp only at h ⊢
+  have hg : Good (afterDist s (distOf s)) { st := afterDist s (distOf s), todo := (distOf s).agents, aliased := true, done := [] } [] := by
+    simp [Good, addLog, run]
+  have := midLoop_spec P (s.now + 1) (s.agents.map (·.id)) fuel _ _ hg h
+  unfold Good at this
+  rw [this]
+  have hstep : stepFn s = frame (distOf s).delayed.reverse (pend (s.now + 1) (s.agents.map (·.id)) (distOf s).agents)
+      (afterDist s (distOf s)) := by
+    unfold stepFn
+    simp [frame, pend, afterDist, distOf]
+  rw [hstep, frame_run]
+  simp [frame, addLog]
+
+theorem mrun_stuck_mono (ops : List MOp) : ∀ m : MState, m.stuck = true → (mrun m ops).stuck = true := by
+  induction ops with
+  | nil => intro m h; exact h
+  | cons o rest ih =>
+    intro m h
+    simp only [mrun, List.foldl_cons] at ih ⊢
+    apply ih
+    cases o with
+    | op o => exact h
+    | stepWith P fuel => simp [mstep, h]
+
+/-- a whole history with user code in the steps = the linearised history on the base machine -/
+theorem mrun_linear (ops : List MOp) : ∀ m : MState, (mrun m ops).stuck = false →
+    (mrun m ops).st = run m.st (linearise m.st ops) := by
+  induction ops with
+  | nil => intro m _; rfl
+  | cons o rest ih =>
+    intro m h
+    cases o with
+    | op o =>
+      have := ih { m with st := step m.st o } h
+      simpa [mrun, mstep, linearise, run] using this
+    | stepWith P fuel =>
+      have h' : (mrun (mstep m (.stepWith P fuel)) rest).stuck = false := h
+      have hm : (mstep m (.stepWith P fuel)).stuck = false := by
+        cases hc : (mstep m (.stepWith P fuel)).stuck with
+        | false => rfl
+        | true => rw [mrun_stuck_mono rest _ hc] at h'; exact absurd h' (by decide)
+      have hr : (midStep P fuel m.st).stuck = false := by
+        simp only [mstep, Bool.or_eq_false_iff] at hm; exact hm.2
+      have := ih _ h'
+      show (mrun (mstep m (.stepWith P fuel)) rest).st = _
+      rw [this]
+      simp only [mstep, linearise]
+      rw [run_append, midStep_linear P fuel m.st hr]
+      rfl
+
+/-- **C11 under mid-step population changes**: every clause of `C11_full`, for every history whose steps carry
+arbitrary user code (handlers and `act()` creating, deleting, reconfiguring, resetting, sending, broadcasting),
+provided every agent loop ends. -/
+theorem C11_midstep (ops : List MOp) (h : (mrun ⟨State.init, false⟩ ops).stuck = false) :
+    Clauses (mrun ⟨State.init, false⟩ ops).st := by
+  rw [mrun_linear ops _ h]
+  exact C11_full_proved _
+
+/-- non-vacuity (kernel-checked): in one step agent 0's `act()` creates an agent and deletes agent 1; agent 1
+still handles the event distributed to it, the new agent 2 gets its turn (its `act()` sends to the deleted id 1,
+which is dropped in the next step); agent 0's handler sends to the new id 2, handled in the next step. -/
+def demoProg : Prog :=
+  { onEvent := fun m => if m.seq = 0 then [.send 2 0] else []
+    onAct := fun _ i => if i = 0 then [.create 0, .delete [1]] else if i = 2 then [.send 1 0] else [] }
+
+def demoMid : MState := mrun ⟨State.init, false⟩
+  [.op (.create 0), .op (.create 1), .op (.send 0 0), .op (.send 1 0), .stepWith demoProg 10, .op .step]
+
+example : demoMid.stuck = false ∧
+    demoMid.st.log.map (fun h => (h.step, h.agent, h.msg.seq, h.live)) =
+      [(1, 0, 0, [0, 1]), (1, 1, 1, [0, 1]), (2, 2, 2, [0, 2])] ∧
+    demoMid.st.dropped.map (fun d => (d.step, d.msg.seq, d.live)) = [(2, 3, [0, 2])] ∧
+    demoMid.st.agents.map (·.id) = [0, 2] := by decide
+
+/-! ## Wave 2b — handler tables, states without a table, names without handler, handlers that raise
+
+What the property still guarantees on the extended machine `XState`/`xstep`, for EVERY history (`xinv_run`):
+routing (a handler runs only in the agent whose id is the receiver id, alive at the start of that step), never
+early (never before `dueStep`), at most once, and conservation: every sent event is in exactly one place — queued,
+stashed by an aborted step, held in its receiver's inbox, handled, ignored (no handler of that name), dropped (no
+such id) or lost with its deleted receiver.  Exact timing, exactly-once-when-due and order need the assumption
+"every receiver is in a state with a handler table whenever it holds an event, and no handler raises"; the
+witnesses below show each failing without it, and `xrun_base` shows that on base histories the extended
+machine IS the base machine, so `C11_full` carries over (`C11_full_x`). -/
+
+def msgsOf (l : List Ev) : List Msg := l.map (·.msg)
+
+theorem msgsOf_append (a b : List Ev) : msgsOf (a ++ b) = msgsOf a ++ msgsOf b := by simp [msgsOf]
+
+theorem inboxesOf_cons (a : Agent) (as : List Agent) : inboxesOf (a :: as) = a.inbox ++ inboxesOf as := by
+  simp [inboxesOf]
+
+theorem inboxesOf_append (as bs : List Agent) : inboxesOf (as ++ bs) = inboxesOf as ++ inboxesOf bs := by
+  simp [inboxesOf]
+
+theorem inboxesOf_nil : inboxesOf [] = [] := rfl
+
+/-- where a sent event can be -/
+def places (x : XState) : List Msg :=
+  msgsOf x.s.events ++ msgsOf x.stash ++ msgsOf (inboxesOf x.s.agents) ++ x.s.log.map (·.msg) ++
+    x.ignored.map (·.msg) ++ x.s.dropped.map (·.msg) ++ msgsOf x.lost
+
+theorem deliver_ids (as : List Agent) (e : Ev) : (deliver as e).map (·.id) = as.map (·.id) := by
+  induction as with
+  | nil => rfl
+  | cons a rest ih =>
+    simp only [deliver]
+    split
+    · rfl
+    · simp [ih]
+
+/-! counting occurrences: `one a m` = 1 if `a = m` else 0, an atom for `omega` -/
+def one (a m : Msg) : Nat := List.count m [a]
+
+theorem count_cons_one (m a : Msg) (l : List Msg) : List.count m (a :: l) = one a m + List.count m l := by
+  unfold one
+  rw [List.count_cons, List.count_cons]
+  simp only [List.count_nil]
+  omega
+
+@[simp] theorem msgsOf_nil : msgsOf [] = [] := rfl
+@[simp] theorem msgsOf_cons (e : Ev) (l : List Ev) : msgsOf (e :: l) = e.msg :: msgsOf l := rfl
+theorem msgsOf_reverse (l : List Ev) : msgsOf l.reverse = (msgsOf l).reverse := by simp [msgsOf]
+
+/-- normal form for counting goals -/
+macro "count_nf" : tactic => `(tactic|
+  simp only [List.count_append, count_cons_one, List.count_nil, msgsOf_nil, msgsOf_cons, msgsOf_append, msgsOf_reverse,
+    List.count_reverse, inboxesOf_cons, inboxesOf_append, List.map_append, List.map_cons, List.map_nil,
+    inboxesOf_nil, List.append_assoc, List.nil_append, List.append_nil, Nat.add_zero, Nat.zero_add] at *)
+
+theorem deliver_count (as : List Agent) (e : Ev) (h : hasId as e.msg.rid = true) (m : Msg) :
+    List.count m (msgsOf (inboxesOf (deliver as e))) = one e.msg m + List.count m (msgsOf (inboxesOf as)) := by
+  induction as with
+  | nil => simp [hasId] at h
+  | cons a rest ih =>
+    simp only [deliver]
+    split
+    · count_nf; omega
+    · rename_i hne
+      have h' : hasId rest e.msg.rid = true := by
+        simp only [hasId, List.map_cons, List.contains_cons, Bool.or_eq_true, beq_iff_eq] at h ⊢
+        rcases h with h | h
+        · exact absurd h.symm hne
+        · exact h
+      have := ih h'
+      count_nf; omega
+
+/-- the places of the distribution loop's accumulator -/
+def dmsgs (d : Dist) : List Msg := msgsOf d.delayed ++ msgsOf (inboxesOf d.agents) ++ d.dropped.map (·.msg)
+
+theorem distOne_count (now : Nat) (d : Dist) (e : Ev) (m : Msg) :
+    List.count m (dmsgs (distOne now d e)) = one e.msg m + List.count m (dmsgs d) := by
+  unfold distOne
+  split
+  · simp only [dmsgs, dec]; count_nf; omega
+  · split
+    · rename_i hid
+      have := deliver_count d.agents e hid m
+      simp only [dmsgs]; count_nf; omega
+    · simp only [dmsgs]; count_nf; omega
+
+theorem dist_count (now : Nat) (L : List Ev) (m : Msg) :
+    ∀ d : Dist, List.count m (dmsgs (L.foldl (distOne now) d)) = List.count m (msgsOf L) + List.count m (dmsgs d) := by
+  induction L with
+  | nil => intro d; simp
+  | cons e L ih =>
+    intro d
+    simp only [List.foldl_cons]
+    rw [ih, distOne_count]
+    count_nf; omega
+
+theorem drain_rest_nil (names : List Nat) (mk : Ev → Handled) (evs : List Ev) :
+    (drain names mk evs).raised = false → (drain names mk evs).rest = [] := by
+  induction evs with
+  | nil => intro _; rfl
+  | cons e rest ih =>
+    simp only [drain]
+    split
+    · split
+      · intro h; simp at h
+      · exact ih
+    · exact ih
+
+theorem drain_count (names : List Nat) (mk : Ev → Handled) (hmk : ∀ e, (mk e).msg = e.msg) (evs : List Ev) (m : Msg) :
+    List.count m ((drain names mk evs).log.map (·.msg)) + List.count m ((drain names mk evs).ign.map (·.msg)) +
+      List.count m (msgsOf (drain names mk evs).rest) = List.count m (msgsOf evs) := by
+  induction evs with
+  | nil => simp [drain]
+  | cons e rest ih =>
+    simp only [drain]
+    split
+    · split
+      · count_nf; rw [hmk]
+      · count_nf; rw [hmk]; omega
+    · count_nf; rw [hmk]; omega
+
+theorem drain_mem (names : List Nat) (mk : Ev → Handled) (evs : List Ev) :
+    (∀ h ∈ (drain names mk evs).log ++ (drain names mk evs).ign, ∃ e ∈ evs, h = mk e) ∧
+    (∀ e ∈ (drain names mk evs).rest, e ∈ evs) := by
+  induction evs with
+  | nil => simp [drain]
+  | cons e rest ih =>
+    simp only [drain]
+    split
+    · split
+      · constructor
+        · intro h hh; simp at hh; exact ⟨e, by simp, hh⟩
+        · intro e' he'; exact List.mem_cons_of_mem _ he'
+      · constructor
+        · intro h hh
+          simp only [List.mem_append, List.mem_cons] at hh
+          rcases hh with (rfl | hh) | hh
+          · exact ⟨e, by simp, rfl⟩
+          · obtain ⟨e', he', rfl⟩ := ih.1 h (List.mem_append_left _ hh); exact ⟨e', by simp [he'], rfl⟩
+          · obtain ⟨e', he', rfl⟩ := ih.1 h (List.mem_append_right _ hh); exact ⟨e', by simp [he'], rfl⟩
+        · intro e' he'; exact List.mem_cons_of_mem _ (ih.2 e' he')
+    · constructor
+      · intro h hh
+        simp only [List.mem_append, List.mem_cons] at hh
+        rcases hh with hh | rfl | hh
+        · obtain ⟨e', he', rfl⟩ := ih.1 h (List.mem_append_left _ hh); exact ⟨e', by simp [he'], rfl⟩
+        · exact ⟨e, by simp, rfl⟩
+        · obtain ⟨e', he', rfl⟩ := ih.1 h (List.mem_append_right _ hh); exact ⟨e', by simp [he'], rfl⟩
+      · intro e' he'; exact List.mem_cons_of_mem _ (ih.2 e' he')
+
+theorem phase_count (now : Nat) (live : List Nat) (mo : Nat → Meta) (as : List Agent) (m : Msg) :
+    List.count m ((phase now live mo as).log.map (·.msg)) + List.count m ((phase now live mo as).ign.map (·.msg)) +
+        List.count m (msgsOf (inboxesOf (phase now live mo as).agents)) = List.count m (msgsOf (inboxesOf as)) := by
+  induction as with
+  | nil => simp [phase, inboxesOf_nil]
+  | cons a rest ih =>
+    simp only [phase]
+    split
+    · count_nf; omega
+    · rename_i names _
+      have hd := drain_count names (mkHandled now live a.id) (fun _ => rfl) a.inbox.reverse m
+      split
+      · count_nf; omega
+      · rename_i hr
+        have hnil := drain_rest_nil names (mkHandled now live a.id) a.inbox.reverse (by simpa using hr)
+        rw [hnil] at hd
+        count_nf; omega
+
+theorem phase_ids (now : Nat) (live : List Nat) (mo : Nat → Meta) (as : List Agent) :
+    (phase now live mo as).agents.map (·.id) = as.map (·.id) := by
+  induction as with
+  | nil => rfl
+  | cons a rest ih =>
+    simp only [phase]
+    split
+    · simp [ih]
+    · split
+      · simp
+      · simp [ih]
+
+theorem phase_mem (now : Nat) (live : List Nat) (mo : Nat → Meta) (as : List Agent) :
+    ∀ h ∈ (phase now live mo as).log ++ (phase now live mo as).ign,
+      ∃ a ∈ as, ∃ e ∈ a.inbox, h = mkHandled now live a.id e := by
+  induction as with
+  | nil => simp [phase]
+  | cons a rest ih =>
+    simp only [phase]
+    split
+    · intro h hh
+      obtain ⟨a', ha', r⟩ := ih h hh
+      exact ⟨a', List.mem_cons_of_mem _ ha', r⟩
+    · rename_i names _
+      have hd := (drain_mem names (mkHandled now live a.id) a.inbox.reverse).1
+      split
+      · intro h hh
+        obtain ⟨e, he, rfl⟩ := hd h hh
+        exact ⟨a, by simp, e, by simpa using he, rfl⟩
+      · intro h hh
+        simp only [List.mem_append] at hh
+        have : h ∈ (drain names (mkHandled now live a.id) a.inbox.reverse).log ++
+            (drain names (mkHandled now live a.id) a.inbox.reverse).ign ∨
+            h ∈ (phase now live mo rest).log ++ (phase now live mo rest).ign := by
+          simp only [List.mem_append]; tauto
+        rcases this with h1 | h1
+        · obtain ⟨e, he, rfl⟩ := hd h h1
+          exact ⟨a, by simp, e, by simpa using he, rfl⟩
+        · obtain ⟨a', ha', r⟩ := ih h h1
+          exact ⟨a', List.mem_cons_of_mem _ ha', r⟩
+
+theorem phase_agents (now : Nat) (live : List Nat) (mo : Nat → Meta) (as : List Agent) :
+    ∀ a' ∈ (phase now live mo as).agents, ∃ a ∈ as, a'.id = a.id ∧ ∀ e ∈ a'.inbox, e ∈ a.inbox := by
+  induction as with
+  | nil => simp [phase]
+  | cons a rest ih =>
+    simp only [phase]
+    split
+    · intro a' ha'
+      simp only [List.mem_cons] at ha'
+      rcases ha' with rfl | ha'
+      · exact ⟨a', by simp, rfl, fun _ h => h⟩
+      · obtain ⟨b, hb, r⟩ := ih a' ha'; exact ⟨b, List.mem_cons_of_mem _ hb, r⟩
+    · rename_i names _
+      have hd := (drain_mem names (mkHandled now live a.id) a.inbox.reverse).2
+      split
+      · intro a' ha'
+        simp only [List.mem_cons] at ha'
+        rcases ha' with rfl | ha'
+        · refine ⟨a, by simp, rfl, ?_⟩
+          intro e he
+          simp only [List.mem_reverse] at he
+          simpa using hd e he
+        · exact ⟨a', List.mem_cons_of_mem _ ha', rfl, fun _ h => h⟩
+      · intro a' ha'
+        simp only [List.mem_cons] at ha'
+        rcases ha' with rfl | ha'
+        · exact ⟨a, by simp, rfl, by simp⟩
+        · obtain ⟨b, hb, r⟩ := ih a' ha'; exact ⟨b, List.mem_cons_of_mem _ hb, r⟩
+
+/-- **What holds on the extended machine in every reachable state.** -/
+structure XInv (x : XState) : Prop where
+  idsSorted : (x.s.agents.map (·.id)).Pairwise (· < ·)
+  idBound : ∀ a ∈ x.s.agents, a.id < x.s.next
+  sentLen : x.s.sent.length = x.s.nextSeq
+  sentIdx : ∀ m ∈ x.s.sent, x.s.sent[m.seq]? = some m
+  sentNodup : x.s.sent.Nodup
+  conserve : ∀ m, List.count m (places x) = List.count m x.s.sent
+  evOk : ∀ e ∈ x.s.events ++ x.stash, e.msg.sentAt + e.msg.delay ≤ x.s.now + e.remaining
+  inboxOk : ∀ a ∈ x.s.agents, ∀ e ∈ a.inbox, e.msg.rid = a.id ∧ dueStep e.msg ≤ x.s.now
+  logOk : ∀ h ∈ x.s.log ++ x.ignored,
+    h.agent = h.msg.rid ∧ h.agent ∈ h.live ∧ dueStep h.msg ≤ h.step ∧ h.step ≤ x.s.now
+  dropOk : ∀ d ∈ x.s.dropped, d.msg.rid ∉ d.live ∧ dueStep d.msg ≤ d.step ∧ d.step ≤ x.s.now
+
+theorem xinv_init : XInv XState.init := by
+  constructor <;> simp [XState.init, State.init, places, inboxesOf_nil]
+
+/-- apply a base-state function that leaves the side data alone -/
+def xmap (f : State → State) (x : XState) : XState := { x with s := f x.s }
+
+theorem xinv_create (x : XState) (ty : Nat) (h : XInv x) : XInv (xmap (fun s => create s ty) x) := by
+  refine { h with idsSorted := ?_, idBound := ?_, conserve := ?_, inboxOk := ?_ }
+  · simp only [xmap, create, List.map_append, List.map_cons, List.map_nil]
+    rw [List.pairwise_append]
+    refine ⟨h.idsSorted, by simp, ?_⟩
+    intro a ha b hb
+    simp at hb; subst hb
+    simp at ha
+    obtain ⟨y, hy, rfl⟩ := ha
+    exact h.idBound y hy
+  · intro a ha
+    simp [xmap, create] at ha ⊢
+    rcases ha with ha | rfl
+    · have := h.idBound a ha; omega
+    · simp
+  · intro m
+    have := h.conserve m
+    simp only [places, xmap, create] at this ⊢
+    count_nf; omega
+  · intro a ha
+    simp [xmap, create] at ha
+    rcases ha with ha | rfl
+    · exact h.inboxOk a ha
+    · simp
+
+theorem xinv_createN (ty : Nat) (n : Nat) : ∀ x, XInv x → XInv (xmap (fun s => createN s ty n) x) := by
+  induction n with
+  | zero => intro x h; exact h
+  | succ n ih => intro x h; exact ih _ (xinv_create x ty h)
+
+theorem xinv_createSpec (spec : List (Nat × Nat)) : ∀ x, XInv x → XInv (xmap (fun s => createSpec s spec) x) := by
+  induction spec with
+  | nil => intro x h; exact h
+  | cons p rest ih => intro x h; obtain ⟨ty, n⟩ := p; exact ih _ (xinv_createN ty n x h)
+
+theorem filter_inboxes_count (p : Agent → Bool) (as : List Agent) (m : Msg) :
+    List.count m (msgsOf (inboxesOf (as.filter (fun a => !p a)))) + List.count m (msgsOf (inboxesOf (as.filter p))) =
+      List.count m (msgsOf (inboxesOf as)) := by
+  induction as with
+  | nil => simp [inboxesOf_nil]
+  | cons a rest ih =>
+    simp only [List.filter_cons]
+    cases p a <;> simp only [Bool.not_true, Bool.not_false, if_true, if_false, Bool.false_eq_true] <;>
+      (count_nf; omega)
+
+theorem xinv_delete (x : XState) (ids : List Nat) (h : XInv x) :
+    XInv { x with s := delete x.s ids, lost := x.lost ++ inboxesOf (x.s.agents.filter (fun a => ids.contains a.id)) } := by
+  refine { h with idsSorted := ?_, idBound := ?_, conserve := ?_, inboxOk := ?_ }
+  · exact List.Pairwise.sublist (List.Sublist.map _ List.filter_sublist) h.idsSorted
+  · intro a ha; exact h.idBound a (List.mem_filter.mp ha).1
+  · intro m
+    have := h.conserve m
+    have hf := filter_inboxes_count (fun a => ids.contains a.id) x.s.agents m
+    simp only [places, delete] at this ⊢
+    count_nf; omega
+  · intro a ha; exact h.inboxOk a (List.mem_filter.mp ha).1
+
+theorem xinv_clear (x : XState) (h : XInv x) :
+    XInv { x with s := clear x.s, lost := x.lost ++ inboxesOf x.s.agents } := by
+  refine { h with idsSorted := ?_, idBound := ?_, conserve := ?_, inboxOk := ?_ }
+  · simp [clear]
+  · simp [clear]
+  · intro m
+    have := h.conserve m
+    simp only [places, clear] at this ⊢
+    count_nf; omega
+  · simp [clear]
+
+theorem XInv.seq_lt {x : XState} (h : XInv x) {m : Msg} (hm : m ∈ x.s.sent) : m.seq < x.s.nextSeq := by
+  have a := h.sentIdx m hm
+  rw [List.getElem?_eq_some_iff] at a
+  obtain ⟨hlt, _⟩ := a
+  rw [← h.sentLen]; exact hlt
+
+theorem xinv_sendX (x : XState) (rid delay name : Nat) (r : Bool) (h : XInv x) :
+    XInv (xmap (fun s => sendX s rid delay name r) x) := by
+  refine { h with sentLen := ?_, sentIdx := ?_, sentNodup := ?_, conserve := ?_, evOk := ?_ }
+  · simp [xmap, sendX, h.sentLen]
+  · intro m hm
+    simp only [xmap, sendX, List.mem_append, List.mem_singleton] at hm ⊢
+    rcases hm with hm | rfl
+    · rw [List.getElem?_append_left (by rw [h.sentLen]; exact h.seq_lt hm)]
+      exact h.sentIdx m hm
+    · simp only
+      rw [← h.sentLen]
+      exact List.getElem?_concat_length
+  · simp only [xmap, sendX]
+    rw [List.nodup_append]
+    refine ⟨h.sentNodup, by simp, ?_⟩
+    intro a ha b hb
+    simp only [List.mem_singleton] at hb
+    subst hb
+    intro hab
+    have := h.seq_lt ha
+    rw [hab] at this
+    simp at this
+  · intro m
+    have := h.conserve m
+    simp only [places, xmap, sendX] at this ⊢
+    count_nf; omega
+  · intro e he
+    simp only [xmap, sendX, List.mem_append, List.mem_singleton] at he ⊢
+    rcases he with (he | rfl) | he
+    · exact h.evOk e (by simp [he])
+    · simp
+    · exact h.evOk e (by simp [he])
+
+theorem send_eq_sendX (s : State) (rid delay : Nat) : send s rid delay = sendX s rid delay 0 false := rfl
+
+theorem xinv_sendAll (delay : Nat) (ids : List Nat) : ∀ x, XInv x → XInv (xmap (fun s => sendAll s delay ids) x) := by
+  induction ids with
+  | nil => intro x h; exact h
+  | cons i rest ih => intro x h; exact ih _ (xinv_sendX x i delay 0 false h)
+
+theorem xinv_stepFn (x : XState) (h : XInv x) : XInv (xstepFn x) := by
+  have hn : (x.s.agents.map (·.id)).Nodup := pairwise_lt_nodup _ h.idsSorted
+  have hd := dist_fold (x.s.now + 1) x.s.events.reverse x.s.agents [] [] hn
+  have hcount := fun m => dist_count (x.s.now + 1) x.s.events.reverse m
+    { agents := x.s.agents, delayed := [], dropped := [] }
+  unfold xstepFn xafter distOf
+  simp only
+  generalize x.s.events.reverse.foldl (distOne (x.s.now + 1)) { agents := x.s.agents, delayed := [], dropped := [] } = d
+    at hd hcount ⊢
+  have hda : d.agents = x.s.agents.map (addAll x.s.events.reverse) := by rw [hd]
+  have hdl : d.delayed = (x.s.events.reverse.filter isDelayed).map dec := by rw [hd]; simp
+  have hdr : d.dropped = (x.s.events.reverse.filter (isDropped (x.s.agents.map (·.id)))).map
+      (mkDrop (x.s.now + 1) (x.s.agents.map (·.id))) := by rw [hd]; simp
+  have hdids : d.agents.map (·.id) = x.s.agents.map (·.id) := by
+    rw [hda, List.map_map]; apply List.map_congr_left; intro a _; rfl
+  have hdinbox : ∀ a ∈ d.agents, ∀ e ∈ a.inbox, e.msg.rid = a.id ∧ dueStep e.msg ≤ x.s.now + 1 := by
+    intro a ha e he
+    rw [hda] at ha
+    obtain ⟨a0, ha0, rfl⟩ := List.mem_map.mp ha
+    simp only [addAll, List.mem_append, List.mem_filter, List.mem_reverse, dueFor, Bool.and_eq_true, beq_iff_eq] at he
+    rcases he with he | ⟨he, h0, hr⟩
+    · obtain ⟨a1, a2⟩ := h.inboxOk a0 ha0 e he
+      exact ⟨a1, by omega⟩
+    · have := h.evOk e (List.mem_append_left _ he)
+      exact ⟨hr, by simp only [dueStep]; omega⟩
+  have hpc := fun m => phase_count (x.s.now + 1) (x.s.agents.map (·.id)) x.metaOf d.agents m
+  have hpm := phase_mem (x.s.now + 1) (x.s.agents.map (·.id)) x.metaOf d.agents
+  have hpa := phase_agents (x.s.now + 1) (x.s.agents.map (·.id)) x.metaOf d.agents
+  have hpi := phase_ids (x.s.now + 1) (x.s.agents.map (·.id)) x.metaOf d.agents
+  generalize phase (x.s.now + 1) (x.s.agents.map (·.id)) x.metaOf d.agents = p at hpc hpm hpa hpi ⊢
+  constructor
+  · -- idsSorted
+    show (p.agents.map (·.id)).Pairwise (· < ·)
+    rw [hpi, hdids]; exact h.idsSorted
+  · -- idBound
+    intro a ha
+    have : a.id ∈ p.agents.map (·.id) := List.mem_map.mpr ⟨a, ha, rfl⟩
+    rw [hpi, hdids] at this
+    obtain ⟨a0, ha0, he⟩ := List.mem_map.mp this
+    have := h.idBound a0 ha0
+    simp only at he ⊢
+    omega
+  · exact h.sentLen
+  · exact h.sentIdx
+  · exact h.sentNodup
+  · -- conserve
+    intro m
+    have h1 := h.conserve m
+    have h2 := hcount m
+    have h3 := hpc m
+    simp only [places, dmsgs] at h1 h2 ⊢
+    cases p.raised <;> simp only [if_true, if_false, Bool.false_eq_true] <;> (count_nf; omega)
+  · -- evOk (never early)
+    intro e he
+    have hmem : e ∈ x.stash ∨ e ∈ d.delayed := by
+      cases hr : p.raised <;> simp [hr] at he <;> tauto
+    rcases hmem with he | he
+    · have := h.evOk e (List.mem_append_right _ he)
+      simp only; omega
+    · rw [hdl] at he
+      simp only [List.mem_map, List.mem_filter, List.mem_reverse, isDelayed, decide_eq_true_eq] at he
+      obtain ⟨e0, ⟨he0, hpos⟩, rfl⟩ := he
+      have := h.evOk e0 (List.mem_append_left _ he0)
+      simp only [dec]; omega
+  · -- inboxOk
+    intro a ha e he
+    obtain ⟨a0, ha0, hid, hsub⟩ := hpa a ha
+    obtain ⟨r1, r2⟩ := hdinbox a0 ha0 e (hsub e he)
+    exact ⟨by rw [hid]; exact r1, r2⟩
+  · -- logOk
+    intro hh hmem
+    have hmem' : hh ∈ x.s.log ++ x.ignored ∨ hh ∈ p.log ++ p.ign := by
+      simp only [List.mem_append] at hmem ⊢; tauto
+    rcases hmem' with hold | hnew
+    · obtain ⟨a, b, c, dd⟩ := h.logOk hh hold
+      exact ⟨a, b, c, by simp only; omega⟩
+    · obtain ⟨a, ha, e, he, rfl⟩ := hpm hh hnew
+      obtain ⟨r1, r2⟩ := hdinbox a ha e he
+      refine ⟨r1.symm, ?_, r2, Nat.le_refl _⟩
+      simp only [mkHandled]
+      rw [← hdids]
+      exact List.mem_map.mpr ⟨a, ha, rfl⟩
+  · -- dropOk
+    intro dd hmem
+    simp only [List.mem_append] at hmem
+    rcases hmem with hold | hnew
+    · obtain ⟨a, b, c⟩ := h.dropOk dd hold
+      exact ⟨a, b, by simp only; omega⟩
+    · rw [hdr] at hnew
+      obtain ⟨e, he, h0, hr, rfl⟩ := mem_drops.mp hnew
+      have := h.evOk e (List.mem_append_left _ he)
+      exact ⟨hr, by simp only [dueStep]; omega, Nat.le_refl _⟩
+
+theorem xinv_step (x : XState) (op : XOp) (h : XInv x) : XInv (xstep x op) := by
+  cases op with
+  | base o =>
+    cases o with
+    | create ty => exact xinv_create x ty h
+    | delete ids => exact xinv_delete x ids h
+    | configure spec => exact xinv_createSpec spec _ (xinv_clear x h)
+    | reset => exact xinv_clear x h
+    | send rid delay => exact xinv_sendX x rid delay 0 false h
+    | broadcast ty delay => exact xinv_sendAll delay _ x h
+    | step => exact xinv_stepFn x h
+  | createT ty m => exact { xinv_create x ty h with }
+  | setState i st => exact { h with }
+  | sendX rid delay name r => exact xinv_sendX x rid delay name r h
+
+theorem xinv_run (ops : List XOp) : ∀ x, XInv x → XInv (xrun x ops) := by
+  induction ops with
+  | nil => intro x h; exact h
+  | cons op rest ih => intro x h; exact ih _ (xinv_step x op h)
+
+theorem xinv_reachable (ops : List XOp) : XInv (xrun XState.init ops) := xinv_run ops _ xinv_init
+
+/-! ### what the property still guarantees on the extended machine -/
+
+theorem XInv.mem_sent {x : XState} (h : XInv x) {m : Msg} (hm : m ∈ places x) : m ∈ x.s.sent := by
+  have := List.count_pos_iff.mpr hm
+  rw [h.conserve m] at this
+  exact List.count_pos_iff.mp this
+
+/-- The guarantees that survive states without handler table, unknown event names and raising handlers. -/
+def XClauses (x : XState) : Prop :=
+  -- routing + never early: an event is popped (handler run, or no handler of that name) only by the agent whose id
+  -- is its receiver id, alive at the start of that step, for an event that was really sent, not before it is due
+  (∀ h ∈ x.s.log ++ x.ignored, h.msg ∈ x.s.sent ∧ h.agent = h.msg.rid ∧ h.agent ∈ h.live ∧ dueStep h.msg ≤ h.step) ∧
+  -- an event is discarded by the scheduler only when no agent has the receiver id, not before it is due
+  (∀ d ∈ x.s.dropped, d.msg ∈ x.s.sent ∧ d.msg.rid ∉ d.live ∧ dueStep d.msg ≤ d.step) ∧
+  -- an event waiting in an inbox is in the inbox of its receiver
+  (∀ a ∈ x.s.agents, ∀ e ∈ a.inbox, e.msg ∈ x.s.sent ∧ e.msg.rid = a.id) ∧
+  -- conservation / at most once: every sent event is in exactly one place, exactly once
+  (∀ m ∈ x.s.sent, List.count m (places x) = 1) ∧
+  -- ids are unique
+  (x.s.agents.map (·.id)).Nodup
+
+theorem XInv.clauses {x : XState} (h : XInv x) : XClauses x := by
+  refine ⟨?_, ?_, ?_, ?_, pairwise_lt_nodup _ h.idsSorted⟩
+  · intro hh hmem
+    obtain ⟨a, b, c, _⟩ := h.logOk hh hmem
+    refine ⟨h.mem_sent ?_, a, b, c⟩
+    simp only [List.mem_append] at hmem
+    simp only [places, List.mem_append, List.mem_map]
+    rcases hmem with hm | hm
+    · exact Or.inl (Or.inl (Or.inl (Or.inr ⟨hh, hm, rfl⟩)))
+    · exact Or.inl (Or.inl (Or.inr ⟨hh, hm, rfl⟩))
+  · intro d hd
+    obtain ⟨a, b, _⟩ := h.dropOk d hd
+    refine ⟨h.mem_sent ?_, a, b⟩
+    simp only [places, List.mem_append, List.mem_map]
+    exact Or.inl (Or.inr ⟨d, hd, rfl⟩)
+  · intro a ha e he
+    refine ⟨h.mem_sent ?_, (h.inboxOk a ha e he).1⟩
+    simp only [places, List.mem_append, msgsOf, List.mem_map, inboxesOf, List.mem_flatMap]
+    exact Or.inl (Or.inl (Or.inl (Or.inl (Or.inr ⟨e, ⟨a, ha, he⟩, rfl⟩))))
+  · intro m hm
+    rw [h.conserve m]
+    exact List.count_eq_one_of_mem h.sentNodup hm
+
+/-- **C11 on the extended machine, every history** (`XOp`: handler tables, state changes, named events, raising
+handlers, plus all base operations). -/
+theorem C11_x_partial (ops : List XOp) : XClauses (xrun XState.init ops) := (xinv_reachable ops).clauses
+
+/-- a handler runs at most once per event, and an event is never both handled and discarded / ignored / lost -/
+theorem C11_x_at_most_once (ops : List XOp) (m : Msg) (hm : m ∈ (xrun XState.init ops).s.sent) :
+    List.count m ((xrun XState.init ops).s.log.map (·.msg)) ≤ 1 ∧
+    (m ∈ (xrun XState.init ops).s.log.map (·.msg) →
+      m ∉ (xrun XState.init ops).s.dropped.map (·.msg) ∧ m ∉ (xrun XState.init ops).ignored.map (·.msg) ∧
+      m ∉ msgsOf (xrun XState.init ops).lost ∧ m ∉ msgsOf (xrun XState.init ops).s.events) := by
+  have h1 := (C11_x_partial ops).2.2.2.1 m hm
+  generalize xrun XState.init ops = x at *
+  simp only [places] at h1
+  count_nf
+  refine ⟨by omega, ?_⟩
+  intro hmem
+  have := List.count_pos_iff.mpr hmem
+  refine ⟨?_, ?_, ?_, ?_⟩ <;> (intro hc; have := List.count_pos_iff.mpr hc; omega)
+
+/-! ### on base histories the extended machine is the base machine -/
+
+def PlainEv (e : Ev) : Prop := e.msg.name = 0 ∧ e.msg.raises = false
+
+theorem drain_plain (mk : Ev → Handled) (evs : List Ev) (h : ∀ e ∈ evs, PlainEv e) :
+    drain [0] mk evs = { log := evs.map mk, ign := [], rest := [], raised := false } := by
+  induction evs with
+  | nil => rfl
+  | cons e rest ih =>
+    have he := h e (by simp)
+    have := ih (fun e' he' => h e' (List.mem_cons_of_mem _ he'))
+    simp only [drain, he.1, he.2, this]
+    simp
+
+theorem phase_plain (now : Nat) (live : List Nat) (as : List Agent) (h : ∀ a ∈ as, ∀ e ∈ a.inbox, PlainEv e) :
+    phase now live (fun _ => stdMeta) as =
+      { agents := as.map clearInbox, log := as.flatMap (handleAgent now live), ign := [], raised := false } := by
+  induction as with
+  | nil => rfl
+  | cons a rest ih =>
+    have hr := ih (fun a' ha' => h a' (List.mem_cons_of_mem _ ha'))
+    have hd := drain_plain (mkHandled now live a.id) a.inbox.reverse
+      (fun e he => h a (by simp) e (by simpa using he))
+    have hh : stdMeta.handlers = some [0] := rfl
+    simp only [phase, hh, hd, hr]
+    simp [clearInbox, handleAgent, mkHandled]
+
+theorem inboxesOf_empty (as : List Agent) (h : ∀ a ∈ as, a.inbox = []) : inboxesOf as = [] := by
+  induction as with
+  | nil => rfl
+  | cons a rest ih =>
+    rw [inboxesOf_cons, h a (by simp), ih (fun b hb => h b (List.mem_cons_of_mem _ hb))]; rfl
+
+/-- the embedding of a base state -/
+def ofBase (s : State) : XState := { XState.init with s := s }
+
+theorem ofBase_metaOf (s : State) : (ofBase s).metaOf = fun _ => stdMeta := by
+  funext i; simp [ofBase, XState.metaOf, XState.init]
+
+theorem xstepFn_base (s : State) (h : Inv s) (hp : ∀ e ∈ s.events, PlainEv e) : xstepFn (ofBase s) = ofBase (stepFn s) := by
+  have hn : (s.agents.map (·.id)).Nodup := pairwise_lt_nodup _ h.idsSorted
+  have hd := dist_fold (s.now + 1) s.events.reverse s.agents [] [] hn
+  have hst : stepFn s = { s with now := s.now + 1
+                                 agents := (distOf s).agents.map clearInbox
+                                 log := s.log ++ (distOf s).agents.flatMap (handleAgent (s.now + 1) (s.agents.map (·.id)))
+                                 dropped := s.dropped ++ (distOf s).dropped
+                                 events := (distOf s).delayed.reverse } := rfl
+  have hd' : distOf s = _ := hd
+  have hpl : ∀ a ∈ (distOf s).agents, ∀ e ∈ a.inbox, PlainEv e := by
+    intro a ha e he
+    rw [hd'] at ha
+    obtain ⟨a0, ha0, rfl⟩ := List.mem_map.mp ha
+    simp only [addAll, h.inboxEmpty a0 ha0, List.nil_append, List.mem_filter, List.mem_reverse] at he
+    exact hp e he.1
+  rw [hst]
+  unfold xstepFn xafter
+  simp only [ofBase_metaOf]
+  have hs : (ofBase s).s = s := rfl
+  simp only [hs]
+  rw [phase_plain _ _ _ hpl]
+  simp [ofBase, XState.init]
+
+theorem createN_events (ty n : Nat) : ∀ s, (createN s ty n).events = s.events := by
+  induction n with
+  | zero => intro s; rfl
+  | succ n ih => intro s; simp only [createN]; rw [ih]; rfl
+
+theorem createSpec_events (spec : List (Nat × Nat)) : ∀ s, (createSpec s spec).events = s.events := by
+  induction spec with
+  | nil => intro s; rfl
+  | cons p rest ih => intro s; obtain ⟨ty, n⟩ := p; simp only [createSpec]; rw [ih, createN_events]
+
+theorem sendAll_plain (delay : Nat) (ids : List Nat) :
+    ∀ s, (∀ e ∈ s.events, PlainEv e) → ∀ e ∈ (sendAll s delay ids).events, PlainEv e := by
+  induction ids with
+  | nil => intro s h; exact h
+  | cons i rest ih =>
+    intro s h
+    apply ih
+    intro e he
+    simp only [send, List.mem_append, List.mem_singleton] at he
+    rcases he with he | rfl
+    · exact h e he
+    · exact ⟨rfl, rfl⟩
+
+theorem plain_step (s : State) (o : Op) (h : Inv s) (hp : ∀ e ∈ s.events, PlainEv e) :
+    ∀ e ∈ (step s o).events, PlainEv e := by
+  cases o with
+  | create ty => exact hp
+  | delete ids => exact hp
+  | configure spec => intro e he; simp only [step] at he; rw [createSpec_events] at he; exact hp e he
+  | reset => exact hp
+  | send rid delay => exact sendAll_plain delay [rid] s hp
+  | broadcast ty delay => exact sendAll_plain delay _ s hp
+  | step =>
+    intro e he
+    simp only [step] at he
+    rw [stepFn_spec s (pairwise_lt_nodup _ h.idsSorted) h.inboxEmpty] at he
+    simp only [List.mem_map, List.mem_filter] at he
+    obtain ⟨e0, ⟨he0, _⟩, rfl⟩ := he
+    exact hp e0 he0
+
+theorem xstep_base (s : State) (o : Op) (h : Inv s) (hp : ∀ e ∈ s.events, PlainEv e) :
+    xstep (ofBase s) (.base o) = ofBase (step s o) := by
+  have hemp := inboxesOf_empty s.agents h.inboxEmpty
+  have hemp' : ∀ p : Agent → Bool, inboxesOf (s.agents.filter p) = [] := fun p =>
+    inboxesOf_empty _ (fun a ha => h.inboxEmpty a (List.mem_filter.mp ha).1)
+  cases o with
+  | create ty => rfl
+  | delete ids => simp [xstep, ofBase, XState.init, hemp', step]
+  | configure spec => simp [xstep, ofBase, XState.init, hemp, step]
+  | reset => simp [xstep, ofBase, XState.init, hemp, step]
+  | send rid delay => rfl
+  | broadcast ty delay => rfl
+  | step => exact xstepFn_base s h hp
+
+theorem xrun_base_aux (ops : List Op) : ∀ s, Inv s → (∀ e ∈ s.events, PlainEv e) →
+    xrun (ofBase s) (ops.map .base) = ofBase (run s ops) := by
+  induction ops with
+  | nil => intro s _ _; rfl
+  | cons o rest ih =>
+    intro s h hp
+    simp only [List.map_cons, xrun, List.foldl_cons, run] at ih ⊢
+    rw [xstep_base s o h hp]
+    exact ih _ (inv_step s o h) (plain_step s o h hp)
+
+/-- **Refinement.** On a history of base operations the extended machine is the base machine (nothing is ever
+stashed, ignored, lost or aborted there). -/
+theorem xrun_base (ops : List Op) : xrun XState.init (ops.map .base) = ofBase (run State.init ops) :=
+  xrun_base_aux ops State.init inv_init (by simp [State.init])
+
+/-- hence the full statement holds on the extended machine for every base history -/
+theorem C11_full_x (ops : List Op) :
+    Clauses (xrun XState.init (ops.map .base)).s ∧ (xrun XState.init (ops.map .base)).stash = [] ∧
+    (xrun XState.init (ops.map .base)).ignored = [] ∧ (xrun XState.init (ops.map .base)).lost = [] ∧
+    (xrun XState.init (ops.map .base)).aborted = [] := by
+  rw [xrun_base]
+  exact ⟨C11_full_proved ops, rfl, rfl, rfl, rfl⟩
+
+/-! ### witnesses: exact timing, exactly-once-when-due and order NEED the assumption (kernel-checked; the
+harness replays the same four histories on the real `Agent.handle_events`) -/
+
+def xview (x : XState) : List (Nat × Nat × Nat) := x.s.log.map (fun h => (h.step, h.agent, h.msg.seq))
+
+/-- an agent in a state without handler table keeps the event in its inbox (steps 1, 2: not handled although due in
+step 1); once it is back in a state with a table the event is handled — in step 3 -/
+theorem X_witness_no_table :
+    xview (xrun XState.init [.base (.create 0), .setState 0 1, .base (.send 0 0), .base .step, .base .step]) = [] ∧
+    (xrun XState.init [.base (.create 0), .setState 0 1, .base (.send 0 0), .base .step, .base .step]).s.agents.map
+      (fun a => (a.id, a.inbox.map (·.msg.seq))) = [(0, [0])] ∧
+    xview (xrun XState.init [.base (.create 0), .setState 0 1, .base (.send 0 0), .base .step, .base .step,
+      .setState 0 0, .base .step]) = [(3, 0, 0)] := by decide
+
+/-- … and two events sent to it in the same step (delays 0 and 1) are then handled in the order [1, 0]: the inbox is
+drained newest delivery first -/
+theorem X_witness_order :
+    xview (xrun XState.init [.base (.create 0), .setState 0 1, .base (.send 0 0), .base (.send 0 1), .base .step,
+      .base .step, .setState 0 0, .base .step]) = [(3, 0, 1), (3, 0, 0)] := by decide
+
+/-- a handler that raises (not `KeyError`) ends the step: agent 1's event stays in its inbox (handled in step 2, due
+in step 1), the delayed event stays in `scheduler.delayed_events` and is handled in step 3 (due in step 2) -/
+theorem X_witness_raise :
+    xview (xrun XState.init [.base (.create 0), .base (.create 0), .sendX 0 0 0 true, .base (.send 1 0),
+      .base (.send 1 1), .base .step, .base .step, .base .step]) = [(1, 0, 0), (2, 1, 1), (3, 1, 2)] ∧
+    (xrun XState.init [.base (.create 0), .base (.create 0), .sendX 0 0 0 true, .base (.send 1 0),
+      .base (.send 1 1), .base .step]).aborted = [1] ∧
+    (xrun XState.init [.base (.create 0), .base (.create 0), .sendX 0 0 0 true, .base (.send 1 0),
+      .base (.send 1 1), .base .step]).stash.map (·.msg.seq) = [2] := by decide
+
+/-- an event whose name has no handler in the receiver's state is popped and discarded by the receiver; an event in
+the inbox of an agent that is deleted is lost with it -/
+theorem X_witness_ignored_lost :
+    (xrun XState.init [.base (.create 0), .sendX 0 0 1 false, .base .step]).ignored.map
+      (fun h => (h.step, h.agent, h.msg.seq)) = [(1, 0, 0)] ∧
+    xview (xrun XState.init [.base (.create 0), .sendX 0 0 1 false, .base .step]) = [] ∧
+    (xrun XState.init [.base (.create 0), .setState 0 1, .base (.send 0 0), .base .step, .base (.delete [0]),
+      .base .step]).lost.map (·.msg.seq) = [0] := by decide
+
+/-! ## Wave 2c — the float conversion `math.ceil(round(delay / dt, 9))` of the repaired `handle_delayed_event`
+
+In ℚ, with the floating-point pipeline as an adversary bounded by hypotheses (as C05's `Fl`), never axioms:
+`qf` — the double `delay / dt` (both operands are the doubles nearest to the decimals, one division: relative error
+≤ 2⁻⁵¹, i.e. `|qf − q| ≤ e1` for quotients below the bound); `m / 10⁹` — `round(qf, 9)` is correctly rounded to the
+nearest multiple of 10⁻⁹ (any tie rule); `r` — the double that `round` returns: the decimal itself when it is an
+integer (integers below 2⁵³ are doubles), else within `e2` (half an ulp); `k = ⌈r⌉` (`math.ceil` is exact).
+`ceilRound9_exact`: for a quotient `a / b` with `b·(e1 + ½·10⁻⁹ + e2) < 1` the result is exactly `⌈a / b⌉`.
+`keptBack_eq_ceil`: hence `handle_delayed_event`, which stores `(k − 1)·dt` and re-evaluates next step, keeps the
+event back exactly `max 0 ⌈delay/dt⌉` times. `delay_float_steps`: the instance for decimal `delay`, `dt` with a
+common number of digits, `dt`-numerator ≤ 9·10⁸ and quotient ≤ 10⁶ — it equals the model's `stepsOf`. -/
+
+/-- one evaluation of `math.ceil(round(x / dt, 9))` when the exact value of `x / dt` is `q` -/
+def CeilRound9 (e1 e2 : ℚ) (q : ℚ) (k : ℤ) : Prop :=
+  ∃ (qf : ℚ) (m : ℤ) (r : ℚ), |qf - q| ≤ e1 ∧ |(m : ℚ) / 10 ^ 9 - qf| ≤ 1 / (2 * 10 ^ 9) ∧
+    ((∃ z : ℤ, (m : ℚ) / 10 ^ 9 = z) → r = (m : ℚ) / 10 ^ 9) ∧ |r - (m : ℚ) / 10 ^ 9| ≤ e2 ∧ k = ⌈r⌉
+
+theorem ceilRound9_exact (e1 e2 : ℚ) (a : ℤ) (b : ℕ) (hb : 0 < b) (k : ℤ)
+    (he1 : 2 * e1 * 10 ^ 9 < 1) (hb2 : (b : ℚ) * (e1 + 1 / (2 * 10 ^ 9) + e2) < 1)
+    (h : CeilRound9 e1 e2 ((a : ℚ) / b) k) : k = ⌈(a : ℚ) / b⌉ := by
+  obtain ⟨qf, m, r, h1, h2, h3, h4, rfl⟩ := h
+  have hbq : (0 : ℚ) < b := by exact_mod_cast hb
+  have hN : (0 : ℚ) < 10 ^ 9 := by positivity
+  have h1' := abs_le.mp h1
+  have h2' := abs_le.mp h2
+  have h4' := abs_le.mp h4
+  by_cases hq : ∃ z : ℤ, (a : ℚ) / b = z
+  · obtain ⟨z, hz⟩ := hq
+    rw [hz] at h1' ⊢
+    -- m / 10^9 is within less than one grid unit of the integer z, hence equal to it
+    have hlt : (m : ℚ) / 10 ^ 9 - z < 1 / 10 ^ 9 := by
+      have : e1 < 1 / (2 * 10 ^ 9) := by
+        rw [lt_div_iff₀ (by positivity)]; linarith
+      have e : (1 : ℚ) / 10 ^ 9 = 1 / (2 * 10 ^ 9) + 1 / (2 * 10 ^ 9) := by norm_num
+      linarith [h1'.1, h1'.2, h2'.1, h2'.2]
+    have hgt : -(1 / 10 ^ 9 : ℚ) < (m : ℚ) / 10 ^ 9 - z := by
+      have : e1 < 1 / (2 * 10 ^ 9) := by
+        rw [lt_div_iff₀ (by positivity)]; linarith
+      have e : (1 : ℚ) / 10 ^ 9 = 1 / (2 * 10 ^ 9) + 1 / (2 * 10 ^ 9) := by norm_num
+      linarith [h1'.1, h1'.2, h2'.1, h2'.2]
+    have hm1 : (m : ℚ) - z * 10 ^ 9 < 1 := by
+      have := mul_lt_mul_of_pos_right hlt hN
+      rw [sub_mul, div_mul_cancel₀ _ (ne_of_gt hN), div_mul_cancel₀ _ (ne_of_gt hN)] at this
+      exact this
+    have hm2 : -1 < (m : ℚ) - z * 10 ^ 9 := by
+      have := mul_lt_mul_of_pos_right hgt hN
+      rw [sub_mul, div_mul_cancel₀ _ (ne_of_gt hN), neg_mul, div_mul_cancel₀ _ (ne_of_gt hN)] at this
+      exact this
+    have hmz : m - z * 10 ^ 9 = 0 := by
+      have a1 : (m - z * 10 ^ 9 : ℤ) < 1 := by exact_mod_cast hm1
+      have a2 : (-1 : ℤ) < m - z * 10 ^ 9 := by exact_mod_cast hm2
+      omega
+    have hmq : (m : ℚ) / 10 ^ 9 = z := by
+      rw [div_eq_iff (ne_of_gt hN)]
+      have : (m : ℚ) - z * 10 ^ 9 = 0 := by exact_mod_cast hmz
+      linarith
+    rw [h3 ⟨z, hmq⟩, hmq, Int.ceil_intCast]
+  · -- not an integer: at least 1/b away from the integers on both sides
+    have hE : e1 + 1 / (2 * 10 ^ 9) + e2 < 1 / b := by
+      rw [lt_div_iff₀ hbq]; linarith
+    have hk0 := Int.le_ceil ((a : ℚ) / b)
+    have hk1 := Int.ceil_lt_add_one ((a : ℚ) / b)
+    have hne : (a : ℚ) / b ≠ ⌈(a : ℚ) / b⌉ := fun hc => hq ⟨_, hc⟩
+    have hlt : (a : ℚ) / b < ⌈(a : ℚ) / b⌉ := lt_of_le_of_ne hk0 hne
+    set k0 := ⌈(a : ℚ) / b⌉ with hk0def
+    -- a < k0 * b  and  (k0 - 1) * b < a  as integers
+    have ha1 : a < k0 * b := by
+      have : (a : ℚ) < k0 * b := by rwa [div_lt_iff₀ hbq] at hlt
+      exact_mod_cast this
+    have ha2 : (k0 - 1) * b < a := by
+      have : (k0 : ℚ) - 1 < a / b := by linarith
+      have : ((k0 : ℚ) - 1) * b < a := by rwa [lt_div_iff₀ hbq] at this
+      exact_mod_cast this
+    have hub : (a : ℚ) / b ≤ k0 - 1 / b := by
+      rw [div_le_iff₀ hbq, sub_mul, div_mul_cancel₀ _ (ne_of_gt hbq)]
+      have : a + 1 ≤ k0 * b := by omega
+      have : ((a + 1 : ℤ) : ℚ) ≤ ((k0 * b : ℤ) : ℚ) := by exact_mod_cast this
+      push_cast at this
+      linarith
+    have hlb : (k0 : ℚ) - 1 + 1 / b ≤ a / b := by
+      rw [le_div_iff₀ hbq, add_mul, div_mul_cancel₀ _ (ne_of_gt hbq)]
+      have : (k0 - 1) * b + 1 ≤ a := by omega
+      have : (((k0 - 1) * b + 1 : ℤ) : ℚ) ≤ (a : ℚ) := by exact_mod_cast this
+      push_cast at this
+      linarith
+    rw [Int.ceil_eq_iff]
+    constructor
+    · linarith [h1'.1, h2'.1, h4'.1]
+    · linarith [h1'.2, h2'.2, h4'.2]
+
+/-- `handle_delayed_event` called once per step on the same event: it is kept back `n` times. `P q k` = "evaluating
+`ceil(round(x/dt, 9))` when the exact value of `x/dt` is `q` may give `k`"; after a keep-back the stored delay is
+`(k − 1)·dt`, whose exact quotient by `dt` is `k − 1`. -/
+inductive KeptBack (P : ℚ → ℤ → Prop) : ℚ → ℕ → Prop
+  | deliver {q : ℚ} {k : ℤ} : P q k → k ≤ 0 → KeptBack P q 0
+  | keep {q : ℚ} {k : ℤ} {n : ℕ} : P q k → 0 < k → KeptBack P ((k : ℚ) - 1) n → KeptBack P q (n + 1)
+
+theorem keptBack_eq_ceil (e1 e2 Q : ℚ) (B : ℕ) (hB1 : 1 ≤ B)
+    (he1 : 2 * e1 * 10 ^ 9 < 1) (he : 0 ≤ e1 + 1 / (2 * 10 ^ 9) + e2) (hB : (B : ℚ) * (e1 + 1 / (2 * 10 ^ 9) + e2) < 1)
+    (P : ℚ → ℤ → Prop) (hP : ∀ q k, q ≤ Q → P q k → CeilRound9 e1 e2 q k)
+    (q : ℚ) (n : ℕ) (h : KeptBack P q n) :
+    ∀ (a : ℤ) (b : ℕ), 0 < b → b ≤ B → q = (a : ℚ) / b → q ≤ Q → (n : ℤ) = max 0 ⌈q⌉ := by
+  have hbb : ∀ b : ℕ, b ≤ B → (b : ℚ) * (e1 + 1 / (2 * 10 ^ 9) + e2) < 1 := by
+    intro b hb
+    have : (b : ℚ) ≤ B := by exact_mod_cast hb
+    nlinarith
+  induction h with
+  | deliver hp hk =>
+    intro a b hb0 hbB hq hQ
+    subst hq
+    have := ceilRound9_exact e1 e2 a b hb0 _ he1 (hbb b hbB) (hP _ _ hQ hp)
+    rw [← this]; simp [hk]
+  | @keep q k n hp hk _ ih =>
+    intro a b hb0 hbB hq hQ
+    subst hq
+    have hkc := ceilRound9_exact e1 e2 a b hb0 _ he1 (hbb b hbB) (hP _ _ hQ hp)
+    have hlt := Int.ceil_lt_add_one ((a : ℚ) / b)
+    have hq' : (k : ℚ) - 1 = ((k - 1 : ℤ) : ℚ) / ((1 : ℕ) : ℚ) := by push_cast; ring
+    have := ih (k - 1) 1 (by norm_num) hB1 hq' (by rw [hkc]; linarith)
+    have hc : ⌈(k : ℚ) - 1⌉ = k - 1 := by
+      have : (k : ℚ) - 1 = ((k - 1 : ℤ) : ℚ) := by push_cast; ring
+      rw [this, Int.ceil_intCast]
+    rw [hc] at this
+    rw [← hkc]
+    push_cast
+    omega
+
+theorem stepsOf_eq_ceil (dn dd tn td : ℕ) (hdd : 0 < dd) (htn : 0 < tn) (htd : 0 < td) :
+    (stepsOf dn dd tn td : ℤ) = ⌈((dn : ℚ) / dd) / ((tn : ℚ) / td)⌉ := by
+  obtain ⟨h1, h2⟩ := stepsOf_least dn dd tn td hdd htn
+  have hddq : (0 : ℚ) < dd := by exact_mod_cast hdd
+  have htnq : (0 : ℚ) < tn := by exact_mod_cast htn
+  have htdq : (0 : ℚ) < td := by exact_mod_cast htd
+  have hx : ((dn : ℚ) / dd) / ((tn : ℚ) / td) = (dn * td : ℚ) / (dd * tn) := by
+    field_simp
+  rw [hx]
+  have hbq : (0 : ℚ) < dd * tn := by positivity
+  symm
+  rw [Int.ceil_eq_iff]
+  constructor
+  · by_cases hz : stepsOf dn dd tn td = 0
+    · rw [hz]; simp
+      have : (0 : ℚ) ≤ (dn * td : ℚ) / (dd * tn) := by positivity
+      linarith
+    · have hk := h2 (stepsOf dn dd tn td - 1)
+      have : ¬ dn * td ≤ (stepsOf dn dd tn td - 1) * (dd * tn) := by
+        intro hc; have := hk hc; omega
+      have hlt : (stepsOf dn dd tn td - 1) * (dd * tn) < dn * td := by omega
+      rw [lt_div_iff₀ hbq]
+      have hc : (((stepsOf dn dd tn td - 1) * (dd * tn) : ℕ) : ℚ) < ((dn * td : ℕ) : ℚ) := by exact_mod_cast hlt
+      have h1le : 1 ≤ stepsOf dn dd tn td := by omega
+      push_cast [Nat.cast_sub h1le] at hc
+      push_cast
+      linarith
+  · rw [div_le_iff₀ hbq]
+    have hc : ((dn * td : ℕ) : ℚ) ≤ ((stepsOf dn dd tn td * (dd * tn) : ℕ) : ℚ) := by exact_mod_cast h1
+    push_cast at hc ⊢
+    linarith
+
+
+/-- the instance the manifest quotes: decimal `delay = dn/10^p`, `dt = tn/10^p` (same number `p` of digits),
+`tn ≤ 9·10⁸`, `delay/dt ≤ 10⁶`, double-precision error bounds `e1 = 10⁶·2⁻⁵¹`, `e2 = 10⁶·2⁻⁵³` -/
+theorem delay_float_steps (P : ℚ → ℤ → Prop)
+    (hP : ∀ q k, q ≤ 10 ^ 6 → P q k → CeilRound9 (10 ^ 6 / 2 ^ 51) (10 ^ 6 / 2 ^ 53) q k)
+    (dn tn p n : ℕ) (htn : 0 < tn) (hB : tn ≤ 9 * 10 ^ 8) (hQ : (dn : ℚ) / tn ≤ 10 ^ 6)
+    (h : KeptBack P ((dn : ℚ) / tn) n) : n = stepsOf dn (10 ^ p) tn (10 ^ p) := by
+  have h1 := keptBack_eq_ceil (10 ^ 6 / 2 ^ 51) (10 ^ 6 / 2 ^ 53) (10 ^ 6) (9 * 10 ^ 8) (by norm_num) (by norm_num)
+    (by norm_num) (by norm_num) P hP _ n h (dn : ℤ) tn htn hB (by push_cast; rfl) hQ
+  have hp : 0 < 10 ^ p := by positivity
+  have h2 := stepsOf_eq_ceil dn (10 ^ p) tn (10 ^ p) hp htn hp
+  have hx : ((dn : ℚ) / ((10 ^ p : ℕ) : ℚ)) / ((tn : ℚ) / ((10 ^ p : ℕ) : ℚ)) = (dn : ℚ) / tn := by
+    have : ((10 ^ p : ℕ) : ℚ) ≠ 0 := by positivity
+    have htq : (tn : ℚ) ≠ 0 := by exact_mod_cast (Nat.pos_iff_ne_zero.mp htn)
+    field_simp
+  rw [hx] at h2
+  have hnn : (0 : ℤ) ≤ ⌈(dn : ℚ) / tn⌉ := by
+    apply Int.ceil_nonneg; positivity
+  have : (n : ℤ) = (stepsOf dn (10 ^ p) tn (10 ^ p) : ℤ) := by rw [h1, h2]; exact max_eq_right hnn
+  exact_mod_cast this
+
+/-- non-vacuity: an exact pipeline (no error at all) satisfies the hypotheses, and the bounds are met by
+`delay = 1.0`, `dt = 0.1` (10 steps) -/
+example : CeilRound9 (10 ^ 6 / 2 ^ 51) (10 ^ 6 / 2 ^ 53) ((10 : ℚ) / 1) 10 :=
+  ⟨10, 10 ^ 10, 10, by norm_num, by norm_num, fun _ => by norm_num, by norm_num, by
+    rw [show (10 : ℚ) = ((10 : ℤ) : ℚ) by norm_num, Int.ceil_intCast]⟩
 
 #print axioms C11_full_proved
 #print axioms C11_routing
@@ -690,5 +1856,20 @@ example : stepsOf 1 4 1 10 = 3 ∧ stepsOf 0 1 1 10 = 0 ∧ stepsOf 7 10 1 20 = 
 #print axioms C11_witness_float_countdown
 #print axioms C11_witness_positional
 #print axioms C11_witness_requeue_reversal
+#print axioms midStep_linear
+#print axioms mrun_linear
+#print axioms C11_midstep
+#print axioms C11_x_partial
+#print axioms C11_x_at_most_once
+#print axioms xrun_base
+#print axioms C11_full_x
+#print axioms X_witness_no_table
+#print axioms X_witness_order
+#print axioms X_witness_raise
+#print axioms X_witness_ignored_lost
+#print axioms ceilRound9_exact
+#print axioms keptBack_eq_ceil
+#print axioms stepsOf_eq_ceil
+#print axioms delay_float_steps
 
 end Bptk.C11
